@@ -128,13 +128,13 @@ func Os_Lstat(name string) (fs.FileInfo, error) {
 }
 
 func Os_Getwd() (string, error) { return VCwd, nil }
-func Os_TempDir() string         { return "/tmp" }
-func Os_Environ() []string       { return append([]string(nil), VEnv...) }
-func Os_Getpid() int             { return 4242 }
-func Os_Getppid() int            { return 4241 }
-func Os_Getuid() int             { return 1000 }
-func Os_Geteuid() int            { return 1000 }
-func Os_Getgid() int             { return 1000 }
+func Os_TempDir() string        { return "/tmp" }
+func Os_Environ() []string      { return append([]string(nil), VEnv...) }
+func Os_Getpid() int            { return 4242 }
+func Os_Getppid() int           { return 4241 }
+func Os_Getuid() int            { return 1000 }
+func Os_Geteuid() int           { return 1000 }
+func Os_Getgid() int            { return 1000 }
 func Os_Hostname() (string, error) {
 	return "host", nil
 }
@@ -368,7 +368,7 @@ func OsFile_Name(f *os.File) string {
 	}
 	return ""
 }
-func OsFile_Fd(f *os.File) uintptr                        { return 3 }
+func OsFile_Fd(f *os.File) uintptr { return 3 }
 func OsFile_Sync(f *os.File) error {
 	vOp()
 	return nil
